@@ -407,24 +407,26 @@ class VizierServicer(vizier_service_pb2_grpc.VizierServiceServicer):
         return output_op
 
       # Still need more suggestions. Pythia begins computing missing amount.
-      study_config = svz.StudyConfig.from_proto(study.study_spec)
-      study_descriptor = vz.StudyDescriptor(
-          config=study_config,
-          guid=study_name,
-          max_trial_id=self.datastore.max_trial_id(study_name),
-      )
-      suggest_request = pythia.SuggestRequest(
-          study_descriptor=study_descriptor,
-          count=request.suggestion_count - len(output_trials),
-      )
-
-      # Convert request, send to Pythia, and obtain suggestions.
-      suggest_request_proto = svz.SuggestConverter.to_request_proto(
-          suggest_request
-      )
-      suggest_request_proto.algorithm = study.study_spec.algorithm
-
+      # (Building the request is inside the try block as well: a study spec
+      # that cannot be converted must not leave the operation unfinished.)
       try:
+        study_config = svz.StudyConfig.from_proto(study.study_spec)
+        study_descriptor = vz.StudyDescriptor(
+            config=study_config,
+            guid=study_name,
+            max_trial_id=self.datastore.max_trial_id(study_name),
+        )
+        suggest_request = pythia.SuggestRequest(
+            study_descriptor=study_descriptor,
+            count=request.suggestion_count - len(output_trials),
+        )
+
+        # Convert request, send to Pythia, and obtain suggestions.
+        suggest_request_proto = svz.SuggestConverter.to_request_proto(
+            suggest_request
+        )
+        suggest_request_proto.algorithm = study.study_spec.algorithm
+
         temp_pythia_service = self._select_pythia_service(
             study_config.pythia_endpoint
         )
